@@ -214,7 +214,11 @@ def drive_recv(case):
         p.stream = s
         if case["decomp"] is not None:
             # this endpoint is the server: its decompressor follows the client_* parameters
-            p._create_compressors("server", _agreed(case["decomp"], case.get("wbits"), "client"), comp)
+            if case.get("agreed"):
+                # strict-peer cases: the complete negotiated parameter set, on the side Tornado plays
+                p._create_compressors(case["side"], dict(case["agreed"]), comp)
+            else:
+                p._create_compressors("server", _agreed(case["decomp"], case.get("wbits"), "client"), comp)
             pmd = p._decompressor
             orig = pmd._create_decompressor
             pmd._create_decompressor = lambda: _InflateProxy(orig(), tape, True)
@@ -287,7 +291,10 @@ def drive_send(case):
         p.stream = s
         if case["comp"] is not None:
             side = "client" if case["mask"] else "server"
-            p._create_compressors(side, _agreed(case["comp"], case.get("wbits"), side), comp)
+            if case.get("agreed"):
+                p._create_compressors(case["side"], dict(case["agreed"]), comp)
+            else:
+                p._create_compressors(side, _agreed(case["comp"], case.get("wbits"), side), comp)
             pmc = p._compressor
             orig = pmc._create_compressor
             pmc._create_compressor = lambda: _DeflateProxy(orig(), tape, True)
@@ -303,9 +310,13 @@ def drive_send(case):
                 out.append(Tag("UnicodeEncodeError"))
                 continue
             await _quiesce(loop)
-            out.append(digest(s.take_sent()))
+            raw = s.take_sent()
+            wires.append(b2s(raw))
+            out.append(digest(raw))
         return out
 
+    wires = []
+    case["_wires"] = wires
     saved = os.urandom
     os.urandom = lambda n: next(it)[:n]
     try:
@@ -419,7 +430,11 @@ def py_check(case, obs):
             return c[0] == s_[1] and s_[0] == c[1]
         return True
     if case["kind"] == "send":
-        return isinstance(obs, list) and len(obs) == len(case["msgs"])
+        if not (isinstance(obs, list) and len(obs) == len(case["msgs"])):
+            return False
+        if case.get("strict_bits"):
+            return strict_peer_decodes(case)
+        return True
     exp = case.get("expect")
     if exp is None:
         return True
@@ -756,6 +771,66 @@ def neg_cases(rng, tier):
     return out
 
 
+def strict_peer_decodes(case):
+    """A strict RFC 7692 peer inflates what Tornado wrote with exactly the window negotiated for that direction
+    (one decompressobj for the whole connection: context takeover) and must get every message back."""
+    z = zlib.decompressobj(-case["strict_bits"])
+    wires = case.get("_wires") or []
+    if len(wires) != len(case["msgs"]):
+        return False
+    for w, (binary, data, _k) in zip(wires, case["msgs"]):
+        w = s2b(w)
+        if len(w) < 2 or not (w[0] & 0x80) or not (w[0] & 0x40):
+            return False
+        n, pos = w[1] & 0x7F, 2
+        if n == 126:
+            n, pos = struct.unpack("!H", w[2:4])[0], 4
+        elif n == 127:
+            n, pos = struct.unpack("!Q", w[2:10])[0], 10
+        if w[1] & 0x80:
+            key, pos = w[pos:pos + 4], pos + 4
+            payload = bytes(b ^ key[i % 4] for i, b in enumerate(w[pos:pos + n]))
+        else:
+            payload = w[pos:pos + n]
+        if pos + n != len(w):
+            return False
+        try:
+            got = z.decompress(payload + b"\x00\x00\xff\xff")
+        except zlib.error:
+            return False
+        want = s2b(data) if binary else data.encode("utf-8")
+        if got != want:
+            return False
+    return True
+
+
+def strict_cases(rng, tier):
+    """The peer is a strict RFC 7692 endpoint emulated with raw zlib: asymmetric window bits, context takeover,
+    and a later message repeating content that lies further back than the smaller window."""
+    out = []
+    pairs = [(9, 15), (15, 9)] if tier == "quick" else [(9, 15), (15, 9), (10, 15), (15, 10), (9, 12), (12, 9), (11, 11)]
+    for sbits, cbits in pairs:
+        for side in ("server", "client"):
+            agreed = {"server_max_window_bits": str(sbits), "client_max_window_bits": str(cbits)}
+            small = 1 << min(sbits, cbits)
+            marker = bytes(rng.randrange(256) for _ in range(96))
+            filler = bytes(rng.randrange(256) for _ in range(small + 200))
+            msgs = [[False, b2s(marker + filler)], [False, b2s(marker)], [True, "tail é"], [False, b2s(marker[:40] + filler[:40])]]
+            # peer -> Tornado: the peer deflates with the window negotiated for ITS direction
+            peer_bits = cbits if side == "server" else sbits
+            peer = Peer(rng, (True, peer_bits), side == "server")
+            wire = b"".join(peer.message(m, [], lambda i: 0) for m in msgs)
+            c = recv_case(True, wire, expect=msgs, wbits=peer_bits, seg=[1, 2, 7, 300], label="strict-peer-recv")
+            c["agreed"], c["side"] = agreed, side
+            out.append(c)
+            # Tornado -> peer: the peer inflates with the window negotiated for Tornado's direction
+            sc = {"kind": "send", "mask": side == "client", "comp": True, "wbits": None, "copts": {},
+                  "msgs": [[not m[0], m[1], b2s(rand_key(rng))] for m in msgs], "label": "strict-peer-send",
+                  "agreed": agreed, "side": side, "strict_bits": sbits if side == "server" else cbits}
+            out.append(sc)
+    return out
+
+
 def close_cases(rng, tier):
     """close(code, reason) called locally, then the peer's answer (nothing / data then the echo / the echo / noise)"""
     out = []
@@ -783,6 +858,7 @@ def gen_cases(rng, tier):
     out = []
     out += neg_cases(rng, tier)
     out += close_cases(rng, tier)
+    out += strict_cases(rng, tier)
     out += boundary_cases(rng, tier)
     n_send = 40 if tier == "quick" else 300
     for _ in range(n_send):
